@@ -15,6 +15,7 @@ KEYMAP = {
     'close-': ['C08'], 'idle-': ['C08'], 'drain-': ['C08'], 'lost-': ['C08'],
     'data-delivered-after-close': ['C08'],
     'crypto-buffer-': ['C06', 'C03'],
+    'crypto-new-data-': ['C03'],      # RFC 9001 4.1.3: new CRYPTO data at a superseded level (scenario frames)
     'finished-event-twice': ['C11'], 'finished-without-finish': ['C11'],
     'in-flight-': ['C12'], 'cwnd-': ['C12'],
     'datagram-exceeds-mtu': ['C13'], 'too-many-segments': ['C13'], 'mtu-': ['C13'], 'initial-too-small': ['C13'],
